@@ -51,7 +51,28 @@ func c03AddrKey(a netip.Addr) (bool, string) {
 	// first); the generator only varies the low 64 bits of its IPv6 addresses.
 	b := a.As16()
 	lo := binary.BigEndian.Uint64(b[8:])
+	if b[0] == 0xfe && b[1] == 0x80 {
+		// link-local neighbours (parallel unnumbered sessions): they sort after the 2001:db8::/64
+		// ones, among themselves by address and then by ZONE (netip.Addr.Compare's last step)
+		return true, fmt.Sprint(uint64(1)<<50 + lo*16 + c03ZoneRank(a.Zone()))
+	}
 	return true, fmt.Sprint(uint64(1)<<32 + lo)
+}
+
+// c03ZoneRank: the rank of a zone among the zones the generator uses, in string order
+// ("" < "eth0" < "eth1" < "eth2").
+func c03ZoneRank(z string) uint64 {
+	switch z {
+	case "":
+		return 0
+	case "eth0":
+		return 1
+	case "eth1":
+		return 2
+	case "eth2":
+		return 3
+	}
+	return 15
 }
 
 func c03Rid(a netip.Addr) uint32 {
@@ -146,6 +167,7 @@ func c03Sources(r *vRand) []*PeerInfo {
 	localID := netip.MustParseAddr("10.255.0.1")
 	n := 3 + r.intn(4)
 	addrs := r.perm(12)
+	zoned := r.intn(4) == 0
 	out := make([]*PeerInfo, 0, n)
 	for i := 0; i < n; i++ {
 		pi := &PeerInfo{LocalAS: localAS, LocalID: localID}
@@ -166,7 +188,14 @@ func c03Sources(r *vRand) []*PeerInfo {
 			pi.Confederation = true
 		}
 		pi.ID = netip.AddrFrom4([4]byte{10, 0, 0, byte(1 + r.intn(4))})
-		if addrs[i] < 10 {
+		if zoned && i < 4 {
+			// parallel sessions to one router over several links: one link-local address, told
+			// apart by the zone only (the fourth one without a zone); same router-id, so that
+			// the decision reaches the last step
+			pi.ID = netip.AddrFrom4([4]byte{10, 0, 0, 1})
+			z := []string{"%eth1", "%eth0", "%eth2", ""}[i]
+			pi.Address = netip.MustParseAddr("fe80::1" + z)
+		} else if addrs[i] < 10 {
 			pi.Address = netip.AddrFrom4([4]byte{192, 168, 0, byte(1 + addrs[i])})
 		} else {
 			pi.Address = netip.MustParseAddr(fmt.Sprintf("2001:db8::%d", addrs[i]))
@@ -435,6 +464,9 @@ func c03Key(c *c03Cand, opt oc.RouteSelectionOptionsConfig) []int64 {
 		addr = 1 + int64(binary.BigEndian.Uint32(b4[12:]))
 		if src.Address.Is6() {
 			addr += 1 << 40
+		}
+		if b4[0] == 0xfe && b4[1] == 0x80 {
+			addr = 1<<50 + addr*16 + int64(c03ZoneRank(src.Address.Zone()))
 		}
 	}
 	return []int64{b(c.stale), b(c.nhInvalid), -lp, b(!local), aslen, int64(*c.origin), med, b(internal), age, rid, addr}
